@@ -384,6 +384,337 @@ Example C07_example_vget :
   /\ update [5; 0; 7] 1 4 = [5; 4; 7] /\ nth_error [5; 0; 7] 2 = Some 7.
 Proof. repeat split. Qed.
 
+
+(* ====================================================================================================================
+   AUDIT YB (notes/C07.md, matrix): the clauses of the statement that had no theorem.  Proofs/Audit07.v.  Axiom-free.
+   ==================================================================================================================== *)
+From Coq Require Import Permutation.
+From Tevec Require Import Model.Create Model.Collect Proofs.Audit07.
+
+(* ---- VecDeque: hypothesis weakened.  `ring_wf` (head < cap) excludes the deque WITHOUT allocation (cap 0) - the
+   len = 0 deques of the correspondence run; the accessor laws hold under `ring_wf0` (len <= cap, head <= cap)      *)
+Theorem C07_ring_wf_weakened : forall (A : Type) (r : ring A), ring_wf r -> ring_wf0 r.
+Proof. exact @ring_wf_wf0. Qed.
+Theorem C07_ring_unallocated : forall A : Type,
+  ring_wf0 {| rbuf := @nil A; rhead := 0; rlen := 0 |} /\ ~ ring_wf {| rbuf := @nil A; rhead := 0; rlen := 0 |}.
+Proof. exact @ring_empty_wf0. Qed.
+Theorem C07_ring_length_any : forall (A : Type) (r : ring A), ring_wf0 r -> length (ring_to_list r) = rlen r.
+Proof. exact @ring0_to_list_length. Qed.
+Theorem C07_ring_get_any : forall (A : Type) (r : ring A), ring_wf0 r ->
+  forall i, nth_error (ring_to_list r) i = ring_get r i.
+Proof. exact @ring0_get_to_list. Qed.
+Theorem C07_ring_try_as_slice_any : forall (A : Type) (r : ring A), ring_wf0 r ->
+  forall l, ring_try_as_slice r = Some l -> l = ring_to_list r.
+Proof. exact @ring0_try_as_slice_sound. Qed.
+(* checked get over the deque's OWN uget (C07_checked_get is stated over a list) *)
+Theorem C07_ring_checked_get : forall (A : Type) (r : ring A), ring_wf0 r -> forall i,
+  checked_get (rlen r) (ring_get r) i
+  = match nth_error (ring_to_list r) i with Some x => Ok x | None => Panic OtherPanic end.
+Proof. exact @ring_checked_get. Qed.
+(* titer(): VecDeque::iter() walks the two halves of as_slices(); their lengths; their concatenation *)
+Theorem C07_ring_titer : forall (A : Type) (r : ring A), ring_wf0 r -> ring_iter r = ring_to_list r.
+Proof. exact @ring_iter_spec. Qed.
+Theorem C07_ring_as_slices_lengths : forall (A : Type) (r : ring A), ring_wf0 r ->
+  length (fst (ring_slices r)) = Nat.min (rlen r) (rcap r - rhead r) /\
+  length (snd (ring_slices r)) = rlen r - (rcap r - rhead r).
+Proof. exact @ring_slices_lengths. Qed.
+(* iteration in the other direction: item i from the back is logical position len - 1 - i *)
+Theorem C07_ring_rev_titer : forall (A : Type) (r : ring A), ring_wf0 r -> forall i,
+  nth_error (rev (ring_to_list r)) i = if i <? rlen r then ring_get r (rlen r - 1 - i) else None.
+Proof. exact @ring_rev_nth. Qed.
+(* "the contiguous-slice view WHEN OFFERED": offered exactly when the ring has not wrapped, and then complete *)
+Theorem C07_ring_try_as_slice_offered_iff : forall (A : Type) (r : ring A), ring_wf0 r ->
+  (ring_try_as_slice r = None <-> rcap r < rhead r + rlen r).
+Proof. exact @ring_try_as_slice_offered_iff. Qed.
+Theorem C07_ring_try_as_slice_complete : forall (A : Type) (r : ring A), ring_wf0 r ->
+  rhead r + rlen r <= rcap r -> ring_try_as_slice r = Some (ring_to_list r).
+Proof. exact @ring_try_as_slice_complete. Qed.
+(* sub-slicing: slice(a, b) = VecDeque::range(a..b) *)
+Theorem C07_ring_slice : forall (A : Type) (r : ring A), ring_wf0 r -> forall a b i,
+  nth_error (ring_range r a b) i = if i <? b - a then ring_get r (a + i) else None.
+Proof. exact @ring_range_nth. Qed.
+Theorem C07_ring_slice_length : forall (A : Type) (r : ring A), ring_wf0 r -> forall a b,
+  a <= b -> b <= rlen r -> length (ring_range r a b) = b - a.
+Proof. exact @ring_range_length. Qed.
+Theorem C07_ring_slice_all : forall (A : Type) (r : ring A), ring_wf0 r -> ring_range r 0 (rlen r) = ring_to_list r.
+Proof. exact @ring_range_all. Qed.
+
+(* ---- ndarray views ------------------------------------------------------------------------------------------------ *)
+(* sub-slicing a view of ANY stride (0 and negative included): same memory, offset moved by a strides *)
+Theorem C07_strided_slice : forall (A : Type) (s : strided A), strided_wf s -> forall a b,
+  a <= b -> b <= slen s ->
+  strided_wf (strided_slice s a b) /\ slen (strided_slice s a b) = b - a /\
+  strided_to_list (strided_slice s a b) = seg a b (strided_to_list s).
+Proof.
+  intros A s Hwf a b Hab Hb. split; [apply strided_slice_wf; assumption|].
+  split; [reflexivity|apply strided_slice_to_list; assumption].
+Qed.
+Theorem C07_strided_slice_get : forall (A : Type) (s : strided A), strided_wf s -> forall a b i,
+  a <= b -> b <= slen s ->
+  strided_get (strided_slice s a b) i = if i <? b - a then strided_get s (a + i) else None.
+Proof. exact @strided_slice_get. Qed.
+(* the reversed view (s![..;-1]) IS the reversed logical sequence; reversing twice gives the view back *)
+Theorem C07_strided_reversed_view : forall (A : Type) (s : strided A), strided_wf s ->
+  strided_wf (strided_rev s) /\ strided_to_list (strided_rev s) = rev (strided_to_list s).
+Proof. intros A s Hwf. split; [apply strided_rev_wf|apply strided_rev_to_list]; exact Hwf. Qed.
+Theorem C07_strided_reversed_twice : forall (A : Type) (s : strided A), strided_wf s -> 1 <= slen s ->
+  strided_rev (strided_rev s) = s.
+Proof. exact @strided_rev_involutive. Qed.
+Theorem C07_strided_rev_titer : forall (A : Type) (s : strided A), strided_wf s -> forall i,
+  nth_error (rev (strided_to_list s)) i = if i <? slen s then strided_get s (slen s - 1 - i) else None.
+Proof. exact @strided_rev_iter_nth. Qed.
+(* the stepped view (s![..;k], k >= 1): element i is element i * k; ceil(len / k) elements *)
+Theorem C07_strided_stepped_view : forall (A : Type) (s : strided A), strided_wf s -> forall k i, 1 <= k ->
+  strided_wf (strided_step s k) /\
+  nth_error (strided_to_list (strided_step s k)) i
+  = if i <? (slen s + k - 1) / k then nth_error (strided_to_list s) (i * k) else None.
+Proof. intros A s Hwf k i Hk. split; [apply strided_step_wf|apply strided_step_to_list_nth]; assumption. Qed.
+Theorem C07_strided_step_one : forall (A : Type) (s : strided A), strided_wf s ->
+  strided_to_list (strided_step s 1) = strided_to_list s.
+Proof. exact @strided_step_one. Qed.
+Theorem C07_strided_try_as_slice_offered_iff : forall (A : Type) (s : strided A),
+  strided_try_as_slice s = None <-> (sstep s <> 1%Z /\ 2 <= slen s).
+Proof. exact @strided_try_as_slice_offered_iff. Qed.
+Theorem C07_strided_try_as_slice_complete : forall (A : Type) (s : strided A), strided_wf s ->
+  (sstep s = 1%Z \/ slen s <= 1) -> strided_try_as_slice s = Some (strided_to_list s).
+Proof. exact @strided_try_as_slice_complete. Qed.
+Theorem C07_strided_checked_get : forall (A : Type) (s : strided A), strided_wf s -> forall i,
+  checked_get (slen s) (strided_get s) i
+  = match nth_error (strided_to_list s) i with Some x => Ok x | None => Panic OtherPanic end.
+Proof. exact @strided_checked_get. Qed.
+
+(* ---- Polars chunked arrays ------------------------------------------------------------------------------------------ *)
+Theorem C07_chunked_slice : forall (A : Type) (c : chunked A) (a b i : nat),
+  nth_error (chunked_slice c a b) i = if i <? b - a then chunked_get c (a + i) else None.
+Proof. exact @chunked_slice_nth. Qed.
+(* a slice that keeps a chunked layout (skip a, take b - a across the chunk boundaries) is that same sequence *)
+Theorem C07_chunked_slice_chunks : forall (A : Type) (c : chunked A) (a b : nat),
+  chunked_to_list (chunked_slice_chunks c a b) = chunked_slice c a b.
+Proof. exact @chunked_slice_chunks_spec. Qed.
+Theorem C07_chunked_rev_titer : forall (A : Type) (c : chunked A) (i : nat),
+  nth_error (rev (chunked_to_list c)) i = if i <? chunked_len c then chunked_get c (chunked_len c - 1 - i) else None.
+Proof. exact @chunked_rev_nth. Qed.
+Theorem C07_chunked_checked_get : forall (A : Type) (c : chunked A) (i : nat),
+  checked_get (chunked_len c) (chunked_get c) i
+  = match nth_error (chunked_to_list c) i with Some x => Ok x | None => Panic OtherPanic end.
+Proof. exact @chunked_checked_get. Qed.
+Theorem C07_chunked_empty_chunk : forall (A : Type) (c1 c2 : chunked A),
+  chunked_to_list (c1 ++ [] :: c2) = chunked_to_list (c1 ++ c2).
+Proof. exact @chunked_empty_chunk. Qed.
+
+(* ---- Arc-wrapped containers and the option view (no theorem named them before) -------------------------------------- *)
+Theorem C07_arc_transparent : forall (A : Type) (l : list A) (i a b : nat),
+  arc_to_list l = l /\ length (arc_to_list l) = length l /\ nth_error (arc_to_list l) i = nth_error l i
+  /\ seg a b (arc_to_list l) = seg a b l /\ rev (arc_to_list l) = rev l.
+Proof. exact @arc_transparent. Qed.
+Theorem C07_optview_accessors : forall (T I : Type) (to_opt : T -> option I) (l : list T) (i a b : nat),
+  length (optview_to_list to_opt l) = length l
+  /\ nth_error (optview_to_list to_opt l) i = option_map to_opt (nth_error l i)
+  /\ seg a b (optview_to_list to_opt l) = optview_to_list to_opt (seg a b l)
+  /\ rev (optview_to_list to_opt l) = optview_to_list to_opt (rev l)
+  /\ optview_to_list to_opt l = to_opt_iter_m to_opt l.
+Proof.
+  intros. split; [apply optview_length|]. split; [apply optview_nth|]. split; [apply optview_slice|].
+  split; [apply optview_rev|reflexivity].
+Qed.
+Theorem C07_optview_is_vget : forall (T I : Type) (to_opt : T -> option I) (l : list T) (i : nat),
+  nth_error (optview_to_list to_opt l) i
+  = if i <? length l then Some (valid_get to_opt (length l) (nth_error l) i) else None.
+Proof. exact @optview_vget. Qed.
+Theorem C07_optview_of_backends : forall (T I : Type) (to_opt : T -> option I) (r : ring T) (s : strided T) (i : nat),
+  ring_wf0 r -> strided_wf s ->
+  nth_error (optview_to_list to_opt (ring_to_list r)) i = option_map to_opt (ring_get r i) /\
+  nth_error (optview_to_list to_opt (strided_to_list s)) i = option_map to_opt (strided_get s i).
+Proof. intros T I to_opt r s i Hr Hs. split; [apply optview_ring; exact Hr|apply optview_strided; exact Hs]. Qed.
+Theorem C07_optview_of_chunked : forall (T I : Type) (to_opt : option T -> option I) (c : chunked T) (i : nat),
+  nth_error (optview_to_list to_opt (chunked_to_list c)) i = option_map to_opt (chunked_get c i).
+Proof. exact @optview_chunked. Qed.
+
+(* ---- list laws the accessor statements are phrased with -------------------------------------------------------------- *)
+Theorem C07_rev_nth : forall (A : Type) (l : list A) (i : nat),
+  nth_error (rev l) i = if i <? length l then nth_error l (length l - 1 - i) else None.
+Proof. exact @nth_error_rev. Qed.
+Theorem C07_slice_of_slice : forall (A : Type) (a b a' b' : nat) (l : list A),
+  a + b' <= b -> seg a' b' (seg a b l) = seg (a + a') (a + b') l.
+Proof. exact @seg_seg. Qed.
+Theorem C07_slice_of_reversed : forall (A : Type) (a b : nat) (l : list A), a <= b -> b <= length l ->
+  seg a b (rev l) = rev (seg (length l - b) (length l - a) l).
+Proof. exact @seg_rev. Qed.
+Theorem C07_slice_length_any : forall (A : Type) (a b : nat) (l : list A),
+  length (seg a b l) = Nat.min (b - a) (length l - a).
+Proof. exact @seg_length_min. Qed.
+
+(* ---- "generic algorithms written once against the view trait; backends only supply len / uget" ------------------------
+   view_seq len uget is what such an algorithm sees.  For every backend it IS the logical sequence, and two containers of
+   ANY kinds with the same length and the same uget have the same logical sequence - hence the same result of every
+   function of Model/ (all of them take the logical sequence)                                                          *)
+Theorem C07_view_seq_backends : forall (A : Type) (l : list A) (r : ring A) (s : strided A) (c : chunked A),
+  ring_wf0 r ->
+  view_seq (length l) (nth_error l) = l /\ view_seq (rlen r) (ring_get r) = ring_to_list r
+  /\ view_seq (slen s) (strided_get s) = strided_to_list s
+  /\ view_seq (chunked_len c) (chunked_get c) = chunked_to_list c.
+Proof.
+  intros A l r s c Hr. split; [apply view_seq_list|]. split; [apply ring_view_seq; exact Hr|].
+  split; [apply strided_view_seq|apply chunked_view_seq].
+Qed.
+Theorem C07_view_determined_by_len_and_uget : forall (A : Type) (len : nat) (g1 g2 : nat -> option A),
+  (forall i, i < len -> g1 i = g2 i) -> view_seq len g1 = view_seq len g2.
+Proof. exact @view_seq_ext. Qed.
+Theorem C07_backend_irrelevant_ring_strided : forall (A : Type) (r : ring A) (s : strided A),
+  ring_wf0 r -> rlen r = slen s -> (forall i, i < rlen r -> ring_get r i = strided_get s i) ->
+  ring_to_list r = strided_to_list s.
+Proof. exact @ring_strided_same_sequence. Qed.
+Theorem C07_backend_irrelevant_ring_chunked : forall (A : Type) (r : ring (option A)) (c : chunked A),
+  ring_wf0 r -> rlen r = chunked_len c -> (forall i, i < rlen r -> ring_get r i = chunked_get c i) ->
+  ring_to_list r = chunked_to_list c.
+Proof. exact @ring_chunked_same_sequence. Qed.
+Theorem C07_backend_irrelevant_strided_chunked : forall (A : Type) (s : strided (option A)) (c : chunked A),
+  slen s = chunked_len c -> (forall i, i < slen s -> strided_get s i = chunked_get c i) ->
+  strided_to_list s = chunked_to_list c.
+Proof. exact @strided_chunked_same_sequence. Qed.
+
+(* ---- "whatever the output container": uninit / uset / assume_init of the MaybeUninit buffer (Vec, VecDeque, Array1) -- *)
+Theorem C07_uset_slot : forall (O : Type) (i : nat) (v : O) (buf : list (option O)) (j : nat),
+  nth_error (set_nth i v buf) j = if (j =? i) && (i <? length buf) then Some (Some v) else nth_error buf j.
+Proof. exact @set_nth_nth. Qed.
+Theorem C07_uset_length : forall (O : Type) (i : nat) (v : O) (buf : list (option O)), length (set_nth i v buf) = length buf.
+Proof. exact @set_nth_length. Qed.
+Theorem C07_uset_commutes : forall (O : Type) (i j : nat) (v w : O) (buf : list (option O)),
+  i <> j -> set_nth i v (set_nth j w buf) = set_nth j w (set_nth i v buf).
+Proof. exact @set_nth_comm. Qed.
+Theorem C07_uninit_exposes_nothing : forall (O : Type) (n : nat),
+  assume_init (repeat (@None O) n) = if n =? 0 then Some [] else None.
+Proof. exact @uninit_assume_init. Qed.
+Theorem C07_assume_init_exactly_when_all_written : forall (O : Type) (buf : list (option O)),
+  (forall l, assume_init buf = Some l <-> buf = map Some l) /\
+  (assume_init buf = None <-> exists j, nth_error buf j = Some None).
+Proof. intros O buf. split; [intros l; apply assume_init_Some_iff|apply assume_init_None_iff]. Qed.
+(* stores in ANY order, any number of times, covering every slot: a complete output, slot j = the last value stored at j *)
+Theorem C07_stores_any_order : forall (O : Type) (ws : list (nat * O)) (n : nat),
+  (forall j, j < n -> In j (map fst ws)) ->
+  exists l, finish (apply_writes ws (repeat None n)) = Done l /\ length l = n /\
+            forall j, j < n -> nth_error l j = last_write j ws.
+Proof. exact @writes_cover_all. Qed.
+(* every slot exactly once in any order (vrank's order): slot j = THE value stored at j *)
+Theorem C07_stores_permutation : forall (O : Type) (ws : list (nat * O)) (n : nat),
+  Permutation (map fst ws) (seq 0 n) ->
+  exists l, finish (apply_writes ws (repeat None n)) = Done l /\ length l = n /\
+            forall j v, In (j, v) ws -> nth_error l j = Some v.
+Proof. exact @writes_permutation. Qed.
+(* what must NOT happen: a slot never stored keeps the buffer from being exposed as initialised *)
+Theorem C07_missing_store_detected : forall (O : Type) (ws : list (nat * O)) (n j : nat),
+  j < n -> ~ In j (map fst ws) ->
+  finish (apply_writes ws (repeat None n)) = Uninit (apply_writes ws (repeat None n)).
+Proof. exact @missing_slot_uninit. Qed.
+(* the collected sequence read back from a fresh VecDeque / Array1 / Arc / single chunk is the sequence *)
+Theorem C07_output_container_irrelevant : forall (A : Type) (l : list A) (lo : list (option A)),
+  ring_to_list (ring_of_list l) = l /\ strided_to_list (strided_of_list l) = l /\ arc_to_list l = l
+  /\ chunked_to_list [lo] = lo.
+Proof. exact @output_container_irrelevant. Qed.
+Theorem C07_fresh_containers_well_formed : forall (A : Type) (l : list A),
+  ring_wf0 (ring_of_list l) /\ ring_try_as_slice (ring_of_list l) = Some l /\
+  strided_wf (strided_of_list l) /\ strided_try_as_slice (strided_of_list l) = Some l.
+Proof.
+  intros A l. destruct (ring_of_list_spec l) as (H1 & _ & H2). destruct (strided_of_list_spec l) as (H3 & _ & H4).
+  split; [exact H1|]. split; [exact H2|]. split; [exact H3|exact H4].
+Qed.
+(* the lazy (iterator) forms: collected by a trusted-length collector, or written through write_trust_iter into a
+   caller buffer of the series' length - the sequence the iterator yields, every slot once, in order *)
+Theorem C07_lazy_collected_and_written : forall (O : Type) (items : list O),
+  collect_trusted (length items) items = Done items /\
+  (let r := write_trust_iter (length items) (exact_iter items) in
+   fst r = WOk /\ map fst (snd r) = seq 0 (length items)
+   /\ finish (apply_writes (snd r) (repeat None (length items))) = Done items).
+Proof. exact @lazy_collected_and_written. Qed.
+
+(* ---- returned path = caller-buffer path: hypothesis `1 <= w` of C07_out_path / C07_total DROPPED ------------------------ *)
+Theorem C07_out_path_any_window :
+  forall (T St O : Type) (F : feat T St O) (w : nat) (xs : list T), ts_run F true w xs = ts_run F false w xs.
+Proof. exact @ts_run_out_path_any_window. Qed.
+Theorem C07_outcome_any_window :
+  forall (T St O : Type) (F : feat T St O) (w : nat) (xs : list T) (body : bool),
+    if bad_window w xs then ts_run F body w xs = Panicked AssertFail
+    else exists out, ts_run F body w xs = Done out /\ length out = length xs.
+Proof. exact @ts_run_outcome. Qed.
+Theorem C07_paths_reject_alike :
+  forall (T St O : Type) (w : nat) (f : St -> option T * T -> St * O) (g : St -> option nat * nat * T -> St * O)
+         (s0 : St) (xs : list T),
+    (rolling_apply_to w f s0 xs = Panicked AssertFail <-> bad_window w xs = true) /\
+    (rolling_apply_default w f s0 xs = Panicked AssertFail <-> bad_window w xs = true) /\
+    (rolling_apply_idx_to w g s0 xs = Panicked AssertFail <-> bad_window w xs = true) /\
+    (rolling_apply_idx_default w g s0 xs = Panicked AssertFail <-> bad_window w xs = true).
+Proof.
+  intros T St O w f g s0 xs. destruct (apply_paths_reject_alike w f s0 xs) as [H1 H2].
+  destruct (apply_idx_paths_reject_alike w g s0 xs) as [H3 H4]. repeat split; tauto.
+Qed.
+(* the slice form is the exception: at window 0 the returned (lazy) path and the caller-buffer path DIFFER on every
+   series - `window - 1` underflows before the assertion is reached; on the EMPTY series the buffer path returns the
+   empty result while the lazy path panics (debug build).  The clause "whether the result is returned or written into a
+   caller-supplied buffer" therefore holds for the slice form for window >= 1 only (C07_out_path_custom)              *)
+Theorem C07_out_path_custom_window0_refuted :
+  forall (T St O : Type) (f : St -> list T -> St * O) (s0 : St) (xs : list T),
+    rolling_custom_default 0 f s0 xs = Panicked Underflow /\
+    rolling_custom_to 0 f s0 xs = (if length xs =? 0 then Done [] else Panicked AssertFail) /\
+    rolling_custom_to 0 f s0 xs <> rolling_custom_default 0 f s0 xs.
+Proof. exact @custom_paths_window0. Qed.
+
+(* ---- non-vacuity of the audit theorems ------------------------------------------------------------------------------ *)
+Example C07_audit_example_ring :
+  let r := {| rbuf := [3; 4; 1; 2]; rhead := 2; rlen := 4 |} in
+  ring_wf0 r /\ ring_slices r = ([1; 2], [3; 4]) /\ ring_iter r = [1; 2; 3; 4] /\ ring_range r 1 3 = [2; 3]
+  /\ rcap r < rhead r + rlen r /\ ring_try_as_slice r = None
+  /\ (let r2 := {| rbuf := [0; 1; 2; 3]; rhead := 1; rlen := 3 |} in
+      ring_wf0 r2 /\ rhead r2 + rlen r2 <= rcap r2 /\ ring_try_as_slice r2 = Some [1; 2; 3]).
+Proof. cbv zeta. unfold ring_wf0, rcap. cbn. repeat split; lia. Qed.
+
+Example C07_audit_example_strided :
+  let s := {| sbase := [0; 1; 2; 3; 4; 5; 6]; soff := 1; sstep := 2%Z; slen := 3 |} in
+  strided_wf s /\ strided_to_list s = [1; 3; 5]
+  /\ strided_to_list (strided_slice s 1 3) = [3; 5] /\ 1 <= 3 /\ 3 <= slen s
+  /\ strided_to_list (strided_rev s) = [5; 3; 1] /\ sstep (strided_rev s) = (-2)%Z /\ 1 <= slen s
+  /\ strided_to_list (strided_step s 2) = [1; 5] /\ 1 <= 2
+  /\ strided_try_as_slice s = None /\ sstep s <> 1%Z /\ 2 <= slen s
+  /\ (let o := strided_of_list [7; 8] in (sstep o = 1%Z \/ slen o <= 1) /\ strided_try_as_slice o = Some [7; 8]).
+Proof.
+  cbv zeta. split.
+  { intros i Hi. unfold spos. cbn [soff sstep sbase slen length] in *. lia. }
+  cbn. repeat split; try lia; try discriminate.
+Qed.
+
+Example C07_audit_example_chunked :
+  let c := [[Some 1; None]; []; [Some 3; Some 4]] in
+  chunked_slice_chunks c 1 4 = [[None]; []; [Some 3; Some 4]] /\ chunked_slice c 1 4 = [None; Some 3; Some 4]
+  /\ rev (chunked_to_list c) = [Some 4; Some 3; None; Some 1]
+  /\ optview_to_list (fun x : nat => if x =? 0 then None else Some x) [5; 0; 7] = [Some 5; None; Some 7].
+Proof. repeat split. Qed.
+
+Example C07_audit_example_views_agree :
+  let r := {| rbuf := [3; 4; 1; 2]; rhead := 2; rlen := 4 |} in
+  let s := {| sbase := [4; 3; 2; 1]; soff := 3; sstep := (-1)%Z; slen := 4 |} in
+  ring_wf0 r /\ rlen r = slen s /\ (forall i, i < rlen r -> ring_get r i = strided_get s i)
+  /\ ring_to_list r = [1; 2; 3; 4] /\ strided_to_list s = [1; 2; 3; 4].
+Proof.
+  cbv zeta. split; [unfold ring_wf0, rcap; cbn; lia|]. split; [reflexivity|]. split; [|split; reflexivity].
+  intros i Hi. cbn in Hi. do 4 (destruct i as [|i]; [reflexivity|]). lia.
+Qed.
+
+Example C07_audit_example_stores :
+  let ws := [(2, 30); (0, 10); (1, 20)] in
+  Permutation (map fst ws) (seq 0 3) /\ finish (apply_writes ws (repeat None 3)) = Done [10; 20; 30]
+  /\ finish (apply_writes [(2, 30); (0, 10); (2, 31)] (repeat None 3)) = Uninit [Some 10; None; Some 31]
+  /\ ~ In 1 (map fst [(2, 30); (0, 10); (2, 31)]) /\ last_write 2 [(2, 30); (0, 10); (2, 31)] = Some 31.
+Proof.
+  cbv zeta. split.
+  { cbn. change [0; 1; 2] with ([0; 1] ++ [2]). apply Permutation_cons_app. cbn. apply Permutation_refl. }
+  cbn. repeat split. intros [H|[H|[H|[]]]]; discriminate.
+Qed.
+
+Example C07_audit_example_window0 :
+  bad_window 0 [1; 2] = true /\ bad_window 0 (@nil nat) = false /\ bad_window 3 [1; 2] = false
+  /\ rolling_custom_to 0 (fun (s : unit) (l : list nat) => (s, l)) tt (@nil nat) = Done []
+  /\ rolling_custom_default 0 (fun (s : unit) (l : list nat) => (s, l)) tt (@nil nat) = Panicked Underflow.
+Proof. repeat split. Qed.
+
 Print Assumptions C07_ring_length.
 Print Assumptions C07_ring_get.
 Print Assumptions C07_ring_try_as_slice.
@@ -442,3 +773,61 @@ Print Assumptions C07_iter_cast.
 Print Assumptions C07_opt_iter_cast.
 Print Assumptions C07_elementwise_lengths.
 Print Assumptions C07_vget_after_set.
+Print Assumptions C07_ring_wf_weakened.
+Print Assumptions C07_ring_unallocated.
+Print Assumptions C07_ring_length_any.
+Print Assumptions C07_ring_get_any.
+Print Assumptions C07_ring_try_as_slice_any.
+Print Assumptions C07_ring_checked_get.
+Print Assumptions C07_ring_titer.
+Print Assumptions C07_ring_as_slices_lengths.
+Print Assumptions C07_ring_rev_titer.
+Print Assumptions C07_ring_try_as_slice_offered_iff.
+Print Assumptions C07_ring_try_as_slice_complete.
+Print Assumptions C07_ring_slice.
+Print Assumptions C07_ring_slice_length.
+Print Assumptions C07_ring_slice_all.
+Print Assumptions C07_strided_slice.
+Print Assumptions C07_strided_slice_get.
+Print Assumptions C07_strided_reversed_view.
+Print Assumptions C07_strided_reversed_twice.
+Print Assumptions C07_strided_rev_titer.
+Print Assumptions C07_strided_stepped_view.
+Print Assumptions C07_strided_step_one.
+Print Assumptions C07_strided_try_as_slice_offered_iff.
+Print Assumptions C07_strided_try_as_slice_complete.
+Print Assumptions C07_strided_checked_get.
+Print Assumptions C07_chunked_slice.
+Print Assumptions C07_chunked_slice_chunks.
+Print Assumptions C07_chunked_rev_titer.
+Print Assumptions C07_chunked_checked_get.
+Print Assumptions C07_chunked_empty_chunk.
+Print Assumptions C07_arc_transparent.
+Print Assumptions C07_optview_accessors.
+Print Assumptions C07_optview_is_vget.
+Print Assumptions C07_optview_of_backends.
+Print Assumptions C07_optview_of_chunked.
+Print Assumptions C07_rev_nth.
+Print Assumptions C07_slice_of_slice.
+Print Assumptions C07_slice_of_reversed.
+Print Assumptions C07_slice_length_any.
+Print Assumptions C07_view_seq_backends.
+Print Assumptions C07_view_determined_by_len_and_uget.
+Print Assumptions C07_backend_irrelevant_ring_strided.
+Print Assumptions C07_backend_irrelevant_ring_chunked.
+Print Assumptions C07_backend_irrelevant_strided_chunked.
+Print Assumptions C07_uset_slot.
+Print Assumptions C07_uset_length.
+Print Assumptions C07_uset_commutes.
+Print Assumptions C07_uninit_exposes_nothing.
+Print Assumptions C07_assume_init_exactly_when_all_written.
+Print Assumptions C07_stores_any_order.
+Print Assumptions C07_stores_permutation.
+Print Assumptions C07_missing_store_detected.
+Print Assumptions C07_output_container_irrelevant.
+Print Assumptions C07_fresh_containers_well_formed.
+Print Assumptions C07_lazy_collected_and_written.
+Print Assumptions C07_out_path_any_window.
+Print Assumptions C07_outcome_any_window.
+Print Assumptions C07_paths_reject_alike.
+Print Assumptions C07_out_path_custom_window0_refuted.
